@@ -34,3 +34,25 @@ def quant (all : Bool) : Interp → List Sym → (Interp → Bool) → Bool
 
 end Interp
 end PySMT
+
+namespace PySMT
+
+/-- Well-formed interpretation: every symbol and function value inhabits the declared
+sort, every quantification domain is non-empty and well-sorted. This is the quantifier
+"every interpretation (and every non-empty quantification domain)" of C01/C05/C10. -/
+structure Interp.WF (I : Interp) : Prop where
+  sym      : ∀ s : Sym, (I.sym s).hasSort s.ret = true
+  fn       : ∀ (f : Sym) (as : List Val), (I.fn f as).hasSort f.ret = true
+  dom_ne   : ∀ t : Ty, I.dom t ≠ []
+  dom_sort : ∀ (t : Ty) (v : Val), v ∈ I.dom t → v.hasSort t = true
+
+theorem Interp.WF.bind {I : Interp} (h : I.WF) (s : Sym) (v : Val) (hv : v.hasSort s.ret = true) :
+    (I.bind s v).WF := by
+  refine ⟨?_, h.fn, h.dom_ne, h.dom_sort⟩
+  intro s'
+  simp only [Interp.bind]
+  split
+  · next heq => subst heq; exact hv
+  · exact h.sym s'
+
+end PySMT
